@@ -1,5 +1,6 @@
 import NucsProofs.Propagators.Affine
 import NucsProofs.Propagators.AffineLeq
+import NucsProofs.Propagators.AlldifferentReg
 import NucsProofs.Propagators.CountEq
 import NucsProofs.Propagators.Counting
 import NucsProofs.Propagators.Dummy
@@ -21,7 +22,9 @@ theorem C08_trig_and : TrigOk .and := trigOk_and
 theorem C08_trig_affineEq : TrigOk .affineEq := trigOk_affineEq
 theorem C08_trig_affineGeq : TrigOk .affineGeq := trigOk_affineGeq
 theorem C08_trig_affineLeq : TrigOk .affineLeq := trigOk_affineLeq
+theorem C08_trig_alldifferent : TrigOk .alldifferent := trigOk_alldifferent
 theorem C08_trig_countEq : TrigOk .countEq := trigOk_countEq
+theorem C08_trig_dummy : TrigOk .dummy := trigOk_dummy
 theorem C08_trig_elementIv : TrigOk .elementIv := trigOk_elementIv
 theorem C08_trig_elementLiv : TrigOk .elementLiv := trigOk_elementLiv
 theorem C08_trig_elementLic : TrigOk .elementLic := trigOk_elementLic
@@ -38,13 +41,15 @@ theorem C08_trig_noSubCycle_full_is_false : ¬ TrigOkW .noSubCycle := not_trigOk
 theorem C08_trig_relation : TrigOk .relation := trigOk_relation
 theorem C08_trig_scc : TrigOk .scc := trigOk_scc
 
-def C08_trig_unproved : List Alg := [.alldifferent, .dummy, .gcc]
+def C08_trig_unproved : List Alg := [.gcc]
 
 theorem localOk_and : LocalOk .and := ⟨sound_and, groundOk_and, entailOk_and, TrigG_of_TrigOk (by decide) trigOk_and, contractMono_and⟩
 theorem localOk_affineEq : LocalOk .affineEq := ⟨sound_affineEq, groundOk_affineEq, entailOk_affineEq, TrigG_of_TrigOk (by decide) trigOk_affineEq, contractMono_affineEq⟩
 theorem localOk_affineGeq : LocalOk .affineGeq := ⟨sound_affineGeq, groundOk_affineGeq, entailOk_affineGeq, TrigG_of_TrigOk (by decide) trigOk_affineGeq, contractMono_affineGeq⟩
 theorem localOk_affineLeq : LocalOk .affineLeq := ⟨sound_affineLeq, groundOk_affineLeq, entailOk_affineLeq, TrigG_of_TrigOk (by decide) trigOk_affineLeq, contractMono_affineLeq⟩
+theorem localOk_alldifferent : LocalOk .alldifferent := ⟨sound_alldifferent, groundOk_alldifferent, entailOk_alldifferent, TrigG_of_TrigOk (by decide) trigOk_alldifferent, contractMono_alldifferent⟩
 theorem localOk_countEq : LocalOk .countEq := ⟨sound_countEq, groundOk_countEq, entailOk_countEq, TrigG_of_TrigOk (by decide) trigOk_countEq, contractMono_countEq⟩
+theorem localOk_dummy : LocalOk .dummy := ⟨sound_dummy, groundOk_dummy, entailOk_dummy, TrigG_of_TrigOk (by decide) trigOk_dummy, contractMono_dummy⟩
 theorem localOk_elementIv : LocalOk .elementIv := ⟨sound_elementIv, groundOk_elementIv, entailOk_elementIv, TrigG_of_TrigOk (by decide) trigOk_elementIv, contractMono_elementIv⟩
 theorem localOk_elementLiv : LocalOk .elementLiv := ⟨sound_elementLiv, groundOk_elementLiv, entailOk_elementLiv, TrigG_of_TrigOk (by decide) trigOk_elementLiv, contractMono_elementLiv⟩
 theorem localOk_elementLic : LocalOk .elementLic := ⟨sound_elementLic, groundOk_elementLic, entailOk_elementLic, TrigG_of_TrigOk (by decide) trigOk_elementLic, contractMono_elementLic⟩
@@ -60,16 +65,18 @@ theorem localOk_relation : LocalOk .relation := ⟨sound_relation, groundOk_rela
 theorem localOk_scc : LocalOk .scc := ⟨sound_scc, groundOk_scc, entailOk_scc, TrigG_of_TrigOk (by decide) trigOk_scc, contractMono_scc⟩
 
 /-- the algorithms whose five local contracts are all proved -/
-def provenAlgs : List Alg := [.and, .affineEq, .affineGeq, .affineLeq, .countEq, .elementIv, .elementLiv, .elementLic, .exactlyEq, .exactlyTrue, .lexLeq, .maxEq, .maxLeq, .minEq, .minGeq, .noSubCycle, .relation, .scc]
+def provenAlgs : List Alg := [.and, .affineEq, .affineGeq, .affineLeq, .alldifferent, .countEq, .dummy, .elementIv, .elementLiv, .elementLic, .exactlyEq, .exactlyTrue, .lexLeq, .maxEq, .maxLeq, .minEq, .minGeq, .noSubCycle, .relation, .scc]
 
 theorem localOk_of_proven (a : Alg) (h : a ∈ provenAlgs) : LocalOk a := by
   simp only [provenAlgs, List.mem_cons, List.mem_nil_iff, or_false] at h
-  rcases h with rfl | rfl | rfl | rfl | rfl | rfl | rfl | rfl | rfl | rfl | rfl | rfl | rfl | rfl | rfl | rfl | rfl | rfl
+  rcases h with rfl | rfl | rfl | rfl | rfl | rfl | rfl | rfl | rfl | rfl | rfl | rfl | rfl | rfl | rfl | rfl | rfl | rfl | rfl | rfl
   · exact localOk_and
   · exact localOk_affineEq
   · exact localOk_affineGeq
   · exact localOk_affineLeq
+  · exact localOk_alldifferent
   · exact localOk_countEq
+  · exact localOk_dummy
   · exact localOk_elementIv
   · exact localOk_elementLiv
   · exact localOk_elementLic
